@@ -888,7 +888,6 @@ def _parse_request_range(
     [0]: http://greenbytes.de/tech/webdav/draft-ietf-httpbis-p5-range-latest.html#byte.ranges
     """
     unit, _, value = range_header.partition("=")
-    unit, value = unit.strip(), value.strip()
     if unit != "bytes":
         return None
     start_b, _, end_b = value.partition("-")
@@ -923,9 +922,12 @@ def _get_content_range(start: int | None, end: int | None, total: int) -> str:
 
 
 def _int_or_none(val: str) -> int | None:
-    val = val.strip()
     if val == "":
         return None
+    if not (val.isascii() and val.isdigit()):
+        # int() also accepts signs, underscores, surrounding whitespace
+        # and non-ASCII digits, none of which are valid in a byte range.
+        raise ValueError("invalid integer in range: %r" % val)
     return int(val)
 
 
